@@ -3,14 +3,14 @@
  for each /verif/seeded/<id>/: (1) the demo passes on clean HEAD, (2) with patch.diff applied the crate
  builds, the existing suite (162 tests + doc test) passes, and the demo fails.  Writes confirm.json."""
 import json, os, re, subprocess, sys, shutil, glob
-WT='/tmp/cm/wt'
+WT=os.environ.get('CM_WT','/tmp/cm/wt')
 ENV=dict(os.environ, CARGO_NET_OFFLINE='true')
 def sh(cmd, cwd=WT, timeout=1800):
     p=subprocess.run(cmd, cwd=cwd, shell=True, env=ENV, stdout=subprocess.PIPE, stderr=subprocess.STDOUT, text=True, timeout=timeout)
     return p.returncode, p.stdout
 def setup():
     if not os.path.exists(WT):
-        os.makedirs('/tmp/cm', exist_ok=True)
+        os.makedirs(os.path.dirname(WT), exist_ok=True)
         sh('git -C /repo worktree add -f --detach %s HEAD' % WT, cwd='/')
     sh('git checkout -q --detach %s && git reset -q --hard && git clean -fdq -e target -e Cargo.lock' % subprocess.run(['git','-C','/repo','rev-parse','HEAD'],capture_output=True,text=True).stdout.strip())
     shutil.copy('/repo/Cargo.lock', WT+'/Cargo.lock')
